@@ -8,6 +8,7 @@
 -/
 import Lemmas.RealCarrier
 import Model.Optimiser
+import Generated.Panics
 import Mathlib.Tactic.Linarith
 import Lemmas.C20Opt
 
@@ -156,5 +157,21 @@ theorem panic_sites (score : Nat → Array ℝ → Option ℝ) (c : Cfg ℝ)
     unfold optimise
     rw [hs0]
     simp [hz]
+
+/-- **panic inventory** (regenerated from the source text on every run): the panic-capable
+constructs of `optimise_state` are exactly the ones the model's `PanicSite` enumerates — the
+initial-score `panic!` (`invalidInitial`), `Uniform::new(0, len)` (`emptyBasis`), the `u64` division
+`steps / inner_steps` (`divZero`), the two `.expect()`s on the basis index (`badIndex`) and the
+final `assert!` (`finalInvalid`); `build`, `accept_score`, the `Basis` impl, `analyse_state` and
+`main` contain none (their failures are `Err` values). A new `unwrap`, index or assertion changes
+these lists and breaks the obligation; `no_panic` above shows each listed site unreachable from a
+valid input. -/
+theorem declared_panic_sites :
+    Generated.optimiseStatePanicSites =
+      ["panic!", "Uniform::new", "u64 division", ".expect()", ".expect()", "assert!"] ∧
+    Generated.acceptScorePanicSites = [] ∧ Generated.buildPanicSites = [] ∧
+    Generated.basisPanicSites = [] ∧ Generated.analyseStatePanicSites = [] ∧
+    Generated.mainPanicSites = [] ∧ Generated.panicsUnrecognised = [] :=
+  ⟨rfl, rfl, rfl, rfl, rfl, rfl, rfl⟩
 
 end PV.Proofs.C20
